@@ -454,7 +454,10 @@ def encode(t, v, out=None):
 
 
 class DecodeError(Exception):
-    pass
+    """klass: what kind of leaf the log got wrong (used in violation keys)"""
+    def __init__(self, msg, klass="log-unparseable"):
+        Exception.__init__(self, msg)
+        self.klass = klass
 
 
 def decode(t, words, pos=None):
@@ -538,7 +541,7 @@ def decode(t, words, pos=None):
         if n > 64:
             bits |= nxt() << 64
         if bits >> n:
-            raise DecodeError("flag bits beyond the declared flags: %x" % bits)
+            raise DecodeError("flag bits beyond the %d declared flags: %x" % (n, bits), "flags")
         v = ("fl", [bool((bits >> i) & 1) for i in range(n)])
     else:
         raise DecodeError("decode: " + k)
@@ -1582,7 +1585,7 @@ class Runner:
                 got = decode(pt, words)
                 self._compare(F, "export-param", pt, pv, got, "the host sent %s, the Rust implementation received %s")
             except DecodeError as e:
-                F.append(Finding("value", "export-param", "observation log does not parse as the parameter types: %s (sent %s)" % (e, show(pv)), "export-param:log-unparseable"))
+                F.append(Finding("value", "export-param", "observation log does not parse as the parameter types: %s (sent %s)" % (e, show(pv)), "export-param:" + e.klass))
         elif words:
             F.append(Finding("value", "export-param", "log not empty for a function without parameters", "export-param:log-unparseable"))
         # -- what the Rust implementation sent back
@@ -1721,7 +1724,7 @@ class Runner:
                 got = decode(fm.result, words)
                 self._compare(F, "import-result", fm.result, ret, got, "the host returned %s, Rust received %s")
             except DecodeError as e:
-                F.append(Finding("value", "import-result", "observation log does not parse as the result type: %s (sent %s)" % (e, show(ret)), "import-result:log-unparseable"))
+                F.append(Finding("value", "import-result", "observation log does not parse as the result type: %s (sent %s)" % (e, show(ret)), "import-result:" + e.klass))
         F += self._mem_findings(evs, "import call")
         freed = set(e[1] for e in evs if e[0] == "F")
         rlabels = alloc_labels(o, fm.result, ret, not fm.result_indirect) if fm.result else []
@@ -1909,7 +1912,7 @@ def prepare_units(tools, specs, resources=False, max_src=None):
                 u.skip = "generator %s: %s" % (gr[0], gr[1][:200])
                 continue
             gsrc = [v for k, v in gr[1].items() if k.endswith(".rs")][0]
-            if max_src and len(gsrc) > max_src:
+            if max_src and len(gsrc) > max_src and u.origin != "corpus":
                 u.skip = "too-large (%d bytes of bindings)" % len(gsrc)
                 continue
             try:
